@@ -74,6 +74,21 @@ static void handle(const verif::Tokens& t, std::ostream& o)
     o << " XT "; show_vec(o, tt);
     return;
   }
+  if(op == "gxfer" || op == "gforbid")
+  {
+    int which = (op == "gforbid" ? int(c.idx()) : 0);
+    MatrixType prol = read_csr(c);
+    MatrixType trunc = read_csr(c);
+    std::vector<Q> xv = qlist(c), yv = qlist(c);
+    MatrixType rest = prol.transpose();
+    VectorType xc(Index(xv.size())), yf(Index(yv.size()));
+    for(Index i(0); i < xc.size(); ++i) xc(i, xv[i]);
+    for(Index i(0); i < yf.size(); ++i) yf(i, yv[i]);
+    if(op == "gforbid") { global_transfer_forbidden(o, which, prol, rest, trunc, xc, yf); return; }
+    o << "G";
+    global_transfer_sections(o, prol, rest, trunc, xc, yf);
+    return;
+  }
   if(op == "dump" || op == "fe" || op == "feo")
   {
     Config cfg; cfg.read(c);
